@@ -9,6 +9,8 @@ Op `pair_eval`: a base election and a perturbation of it, both evaluated by the 
   'score_sum'         ScoreVoting('sum', unscored_value=None|0|1|2|5|'min'): kinds 'raise', 'new'
   'bucklin'           PreferenceAddition(): kinds 'lift', 'new' (bullet ballot)
   'bucklin_whole'     PreferenceAddition(split_equal_rankings=False): the same
+  'pa_list', 'pa_list_whole', 'pa_call'
+                      PreferenceAddition(coefficients=<non-increasing list> | lambda i: 1/(i+1)): kinds 'lift', 'new' (bullet)
   'copeland', 'minimax_wv', 'minimax_margins', 'schulze'
                       PreConverted(RankedToCondorcetVotes(), ...): kinds 'lift', 'new' (bullet ballot), 'new_full'
 
@@ -45,13 +47,14 @@ REQUIRED = ['ha_house_monotone', 'ha_house_monotone_general', 'ha_vote_monotone'
             'bucklin_default_monotone_bullet', 'copeland_monotone', 'minimax_monotone',
             'copeland_monotone_lift', 'copeland_monotone_bullet', 'minimax_monotone_lift', 'minimax_monotone_bullet',
             'schulze_monotone', 'schulze_monotone_lift', 'schulze_monotone_bullet',
-            'minimax_monotone_added', 'minimax_monotone_new_full', 'bucklin_new_full_witness', 'bucklin_default_new_full_witness',
+            'coef_list_ok', 'preference_addition_monotone_lift', 'preference_addition_monotone_bullet',
+            'preference_addition_default_monotone_lift', 'minimax_monotone_added', 'minimax_monotone_new_full', 'bucklin_new_full_witness', 'bucklin_default_new_full_witness',
             'copeland_new_full_witness', 'minimax_wv_new_full_witness', 'schulze_new_full_witness']
 UNPROVED = ['approval_split_monotone (ApprovalToSimpleVotes(split=True), satisfaction approval: modelled as evalApprovalSplit, checked by '
             'correspondence and oracle; the approval theorems cover split=False)',
             "score_sum_monotone for unscored_value='min' (modelled through C12's {score: count} table model, checked by "
             'correspondence and oracle; the theorems cover unscored_value None and every numeric value)',
-            'bucklin_default_monotone on profiles WITH shared ranks (the even split over the compatible strict orders is '
+            'bucklin_default_monotone / preference_addition_default_monotone on profiles WITH shared ranks (the even split over the compatible strict orders is '
             'modelled and checked by the correspondence and the oracle; the theorems cover split_equal_rankings=False and, for '
             'the default, profiles without shared ranks)']
 NAMES = Names(prefix='c')
@@ -62,7 +65,10 @@ BULLET_RULES = ['bucklin', 'bucklin_whole', 'copeland', 'minimax_wv', 'minimax_m
 # rules whose evaluation accepts Decimal weights (Fraction scorers / Fraction(sum, 2) refuse Decimal)
 DEC_OK = ['plurality', 'approval', 'borda', 'modified_borda', 'fixed_top', 'copeland', 'minimax_wv', 'minimax_margins', 'minimax_pwo',
           'schulze']
-RANKED_RULES = POSITIONAL + BULLET_RULES
+# PreferenceAddition with a coefficient list (last entry beyond its end) / a callable: the Bucklin family
+PA_RULES = ['pa_list', 'pa_list_whole', 'pa_call']
+PA_LISTS = [['1', '1/2', '1/3'], ['1', '1', '1/2'], ['1'], ['1', '1/2'], ['2', '1', '1', '1/2'], ['1', '0'], ['1', '3/4', '1/2', '1/4']]
+RANKED_RULES = POSITIONAL + BULLET_RULES + PA_RULES
 ALL_RULES = ['ha', 'plurality'] + POSITIONAL + ['approval', 'score_sum'] + BULLET_RULES
 
 
@@ -360,7 +366,17 @@ def _linearize(b):
     return [sum(x, []) for x in itertools.product(*parts)]
 
 
-def ref_bucklin(prof, split=True):
+def pa_coef(rule, param):
+    """the coefficient of preference index i: 1 (Bucklin), the list entry or its LAST entry beyond the end, or 1/(i+1)"""
+    if rule in ('pa_list', 'pa_list_whole'):
+        seq = [Fraction(x) for x in param]
+        return lambda i: seq[i] if i < len(seq) else seq[-1]
+    if rule == 'pa_call':
+        return lambda i: Fraction(1, i + 1)
+    return lambda i: Fraction(1)
+
+
+def ref_bucklin(prof, split=True, coef=None):
     """sole winner of Bucklin, or None.  split: a ballot with shared ranks is spread evenly over the strict orders
     compatible with it; otherwise every member of a shared rank receives the whole weight"""
     if not prof:
@@ -383,7 +399,7 @@ def ref_bucklin(prof, split=True):
         for b, s in prof:
             if r < len(b):
                 for c in (b[r]['set'] if isinstance(b[r], dict) else [b[r]]):
-                    tot[c] = tot.get(c, 0) + Fraction(s)
+                    tot[c] = tot.get(c, 0) + Fraction(s) * (coef(r) if coef else 1)
         over = {c: v for c, v in tot.items() if v > quota}
         if over:
             m = max(over.values())
@@ -398,6 +414,8 @@ def ref_winner(rule, param, prof):
         return ref_bucklin(prof, True)
     if rule == 'bucklin_whole':
         return ref_bucklin(prof, False)
+    if rule in PA_RULES:
+        return ref_bucklin(prof, rule != 'pa_list_whole', pa_coef(rule, param))
     if rule in ('copeland', 'minimax_wv', 'minimax_margins', 'minimax_pwo', 'schulze'):
         for w in all_cands(prof):
             if strict_first(rule, prof, w):
@@ -473,6 +491,12 @@ def _evaluator(rule, param, stype=None):
         return vseq.PreferenceAddition()
     if rule == 'bucklin_whole':
         return vseq.PreferenceAddition(split_equal_rankings=False)
+    if rule == 'pa_list':
+        return vseq.PreferenceAddition(coefficients=[_num(x) for x in param])
+    if rule == 'pa_list_whole':
+        return vseq.PreferenceAddition(coefficients=[_num(x) for x in param], split_equal_rankings=False)
+    if rule == 'pa_call':
+        return vseq.PreferenceAddition(coefficients=lambda i: Fraction(1, i + 1))
     conv = vconv.RankedToCondorcetVotes()
     if rule == 'copeland':
         return vcore.PreConverted(conv, vcond.Copeland(second_order=bool(param)))
@@ -640,6 +664,8 @@ def _param(rng, rule):
         return rng.choice([2, 2, 3, 10])
     if rule == 'fixed_top':
         return rng.choice([1, 2, 3, 5])
+    if rule in ('pa_list', 'pa_list_whole'):
+        return rng.choice(PA_LISTS)
     if rule == 'sequence':
         return rng.choice([['5', '3', '1'], ['10', '4', '4', '1'], ['3', '3/2'], ['1'], ['12', '10', '8', '7', '6', '5', '4', '3', '2', '1']])
     if rule == 'copeland':
@@ -687,13 +713,27 @@ def ranked_moves(rule, param, base, w, rng=None, limit=None, extra_tags=()):
                 tags.append('fractional_weight')
             if any(nb == x for x, _ in base):
                 tags.append('merges_with_existing')
+            if rule in PA_RULES:
+                if rule == 'pa_call':
+                    tags.append('bucklin_coef:callable')
+                else:
+                    if len(param) < max(len(x) for x, _ in base):
+                        tags.append('bucklin_coef:list_shorter_than_ballot')
+                    else:
+                        tags.append('bucklin_coef:list_covers_ballots')
+                    p0 = pos_of(b, w)
+                    if (len(b) if p0 is None else p0) >= len(param):
+                        tags.append('bucklin_coef:lift_beyond_list_end')
             if len(nb) > max(len(x) for x, _ in base):
                 tags.append('lift_lengthens_longest')
                 if rule == 'modified_borda':
                     tags.append('modified_borda:lift_lengthens_longest')
             out.append(_mk(rule, param, base, replace_unit(base, bi, nb), w, 'lift',
                            {'kind': 'lift', 'ballot': bi, 'pos': i}, tags))
-    if rule in BULLET_RULES:
+    if rule in PA_RULES:
+        out.append(_mk(rule, param, base, add_ballot(base, [w]), w, 'new', {'kind': 'new', 'ballot': [w]},
+                       [f'{rule}:new'] + list(extra_tags)))
+    elif rule in BULLET_RULES:
         out.append(_mk(rule, param, base, add_ballot(base, [w]), w, 'new', {'kind': 'new', 'ballot': [w]},
                        [f'{rule}:new'] + list(extra_tags)))
         # the wider reading of "a new ballot that ranks the winner first": w, then a strict order of some others
@@ -882,6 +922,28 @@ def gen_bucklin_shared3(rng, n_prof):
                 base.append([b, str(rng.choice([1, 1, 2, 3]))])
         for rule in ('bucklin', 'bucklin_whole'):
             for c in shared3_moves(rule, base, rng, 6):
+                yield c
+
+
+def gen_pa(rng, n_prof):
+    """PreferenceAddition with coefficient lists shorter than the ballots: 4-6 candidates, long ballots, the lifts of
+    the reference winner and (every third profile) of every candidate"""
+    for k in range(n_prof):
+        rule = PA_RULES[k % 3]
+        param = rng.choice([l for l in PA_LISTS if len(l) <= 3]) if rule != 'pa_call' else None
+        m = rng.randint(4, 6)
+        base = []
+        for _ in range(rng.randint(2, 4)):
+            b = _rand_ballot(rng, m, 0.15, min_len=min(4, m))
+            if all(b != x for x, _ in base):
+                base.append([b, str(rng.choice([1, 1, 2, 3, 4]))])
+        w = ref_winner(rule, param, base)
+        ws = all_cands(base) if (w is None or k % 3 == 0) else [w]
+        for c2 in ws:
+            cases = ranked_moves(rule, param, base, c2, rng, 10 if c2 == w else 4)
+            if c2 == w:
+                _tag_premise(cases, rule)
+            for c in cases:
                 yield c
 
 
@@ -1172,7 +1234,7 @@ def directed_cases():
     # a three-candidate cycle-free profile with a clear winner for every ranked rule
     base = [[[0, 1, 2], '3'], [[1, 0, 2], '2'], [[2, 0, 1], '1'], [[1, {'set': [0, 2]}], '1'], [[2, 1], '1']]
     for rule in RANKED_RULES:
-        param = {'borda': 1, 'geometric': 2, 'fixed_top': 2, 'copeland': 1, 'sequence': ['5', '3', '1']}.get(rule)
+        param = {'borda': 1, 'geometric': 2, 'fixed_top': 2, 'copeland': 1, 'sequence': ['5', '3', '1'], 'pa_list': ['1', '1/2', '1/3'], 'pa_list_whole': ['1', '1', '1/2']}.get(rule)
         b = base
         w = ref_winner(rule, param, b)
         if w is None:
@@ -1256,7 +1318,8 @@ def directed_cases():
     # the wider reading of the new ballot (w first, others below): minimal cases in which the RULE ITSELF lets w lose
     for rule, param, base, w, nb in NEW_FULL_WITNESSES:
         c = _mk(rule, param, base, add_ballot(base, nb), w, 'new_full', {'kind': 'new', 'ballot': nb},
-                [f'{rule}:new_full', f'{rule}:premise', 'directed', 'new_full_rule_level_failure', 'bucklin:lift_out_of_shared3',
+                [f'{rule}:new_full', f'{rule}:premise', 'directed', 'new_full_rule_level_failure', 'bucklin:lift_out_of_shared3', 'bucklin_coef:list_shorter_than_ballot',
+                      'bucklin_coef:lift_beyond_list_end', 'bucklin_coef:list_covers_ballots', 'bucklin_coef:callable',
                       'names:int0', 'names:empty0', 'names:person', 'state:shared', 'state:shared_rev', 'weights:dec', 'weights:frac',
                       'score_sum:scores_half', 'score_sum:scores_neg', 'score_sum:scores_dec7', 'score_sum:stype_dec',
                       'score_sum:stype_frac', 'score_sum:unscored_negative', 'approval:approve_on_empty', 'approval:split_True',
@@ -1292,6 +1355,16 @@ def directed_cases():
     for c in approval_moves(base[:3], 0, None, 1):
         c['_tags'] += ['approval:premise', 'directed']
         out.append(c)
+    # PreferenceAddition with the coefficient list [1, 1/2, 1/3] and ballots of four and five ranks: the sole winner is lifted
+    # from the 4th to the 3rd and 2nd place, both beyond the end of the list (W=0, B=1, C=2, A=3, D=4); every candidate's lifts
+    base = [[[0, 1, 2], '4'], [[3, 2, 1, 4, 0], '4'], [[2, 4, 3, 0], '1']]
+    for rule, param in (('pa_list', ['1', '1/2', '1/3']), ('pa_list_whole', ['1', '1/2', '1/3']), ('pa_list', ['1', '1', '1/2']),
+                        ('pa_call', None)):
+        rw = ref_winner(rule, param, base)
+        for c2 in all_cands(base):
+            for c in ranked_moves(rule, param, base, c2):
+                c['_tags'] += ['directed'] + ([f'{rule}:premise'] if c2 == rw else [])
+                out.append(c)
     # highest averages: exact quotient tie at the last seat, cap binding, previous gains
     cfg = {'divisor': 'd_hondt', 'first_coef': None, 'votes': [[0, '6'], [1, '3'], [2, '3']], 'n': 3, 'prev': [], 'max': []}
     out += [dict(c, _tags=c['_tags'] + ['directed', 'ha:tie_in_base']) for c in ha_pairs(cfg, [])]
@@ -1490,6 +1563,8 @@ def _generate(rng, tier):
         yield c
     for c in gen_bucklin_shared3(rng, 40 if quick else 800):
         yield c
+    for c in gen_pa(rng, 60 if quick else 1200):
+        yield c
     for c in gen_big_near_tie(rng, 6 if quick else 120):
         yield c
     for c in gen_approval(rng, 150 if quick else 3000):
@@ -1520,7 +1595,7 @@ def exhaustive_cases():
     for k in range(1, 4):
         for perm in itertools.permutations(range(3), k):
             ballots.append(list(perm))
-    params = {'borda': 1, 'geometric': 2, 'fixed_top': 2, 'copeland': 1, 'sequence': ['3', '2', '2']}
+    params = {'borda': 1, 'geometric': 2, 'fixed_top': 2, 'copeland': 1, 'sequence': ['3', '2', '2'], 'pa_list': ['1', '1/2'], 'pa_list_whole': ['1', '1/2']}
     for size in range(1, 4):
         for combo in itertools.combinations_with_replacement(range(len(ballots)), size):
             base = []
@@ -1542,7 +1617,8 @@ REQUIRED_COUNTERS = (['ha:house', 'ha:votes', 'ha:caps', 'ha:prev_gains', 'ha:ti
                       'score_sum:unscored_None', 'score_sum:unscored_0', 'score_sum:unscored_1', 'score_sum:unscored_2',
                       'score_sum:unscored_5', 'score_sum:unscored_min', 'bucklin_two_shared_ranks', 'minimax_unbeaten_after_move',
                       'bucklin_second_round', 'bucklin_split_collision', 'lift_unranked', 'lift_out_of_shared', 'unit_of_heavier_ballot',
-                      'merges_with_existing', 'fractional_weight', 'new_full_rule_level_failure', 'bucklin:lift_out_of_shared3',
+                      'merges_with_existing', 'fractional_weight', 'new_full_rule_level_failure', 'bucklin:lift_out_of_shared3', 'bucklin_coef:list_shorter_than_ballot',
+                      'bucklin_coef:lift_beyond_list_end', 'bucklin_coef:list_covers_ballots', 'bucklin_coef:callable',
                       'names:int0', 'names:empty0', 'names:person', 'state:shared', 'state:shared_rev', 'weights:dec', 'weights:frac',
                       'score_sum:scores_half', 'score_sum:scores_neg', 'score_sum:scores_dec7', 'score_sum:stype_dec',
                       'score_sum:stype_frac', 'score_sum:unscored_negative', 'approval:approve_on_empty', 'approval:split_True',
